@@ -466,6 +466,18 @@ func TestVerifReplay(t *testing.T) {
 			e := v.GetByIndex(i)
 			if e == nil { t.Fatalf("%s: element %d is a nil pointer, want a variant", what, i) }
 			if model[i] == nil { if !e.IsNull() { t.Fatalf("%s: element %d should be Null", what, i) } } else if e != model[i] { t.Fatalf("%s: element %d changed", what, i) }
+			// "grow the array with nulls": each padded position is a null of its own, not one object seen through several positions
+			for j := 0; j < i; j++ { if v.GetByIndex(j) == e { t.Fatalf("%s: positions %d and %d hold the same object", what, j, i) } }
+		}
+	}
+	// writing into one padded null in place leaves the other positions as they were
+	poke := func(v *Variant, model []*Variant, what string) {
+		for i := range model {
+			if model[i] != nil { continue }
+			e := v.GetByIndex(i)
+			e.SetAsInteger(77)
+			for j := range model { if j != i && model[j] == nil && !v.GetByIndex(j).IsNull() { t.Fatalf("%s: writing into position %d changed position %d", what, i, j) } }
+			e.Clear()
 		}
 	}
 	// every sequence of up to 3 operations, applied in place to a freshly built array (so spare capacity
@@ -503,6 +515,7 @@ func TestVerifReplay(t *testing.T) {
 				}
 				check(v, model, trace)
 			}
+			poke(v, model, trace)
 		}
 	}
 	scalars := []*Variant{EmptyVariant(), VariantFromInteger(1), VariantFromLong(2), VariantFromFloat(1.5), VariantFromDouble(2.5), VariantFromString("s"), VariantFromBoolean(true), VariantFromArray(nil)}
@@ -515,7 +528,7 @@ func TestVerifReplay(t *testing.T) {
 	}
 }
 '''
-        return 'variants', src, 'all sequences of <= 3 array operations (SetByIndex/SetLength 0..6, clone) on arrays of length 0..2; equality on one value per scalar type'
+        return 'variants', src, 'all sequences of <= 3 array operations (SetByIndex/SetLength 0..6, clone) on arrays of length 0..2 (positions distinct objects, in-place writes into padded nulls); equality on one value per scalar type'
 
     def inputs(self):
         d = {}
@@ -772,7 +785,8 @@ func bsamples() []*Variant {
 	return []*Variant{EmptyVariant(), VariantFromInteger(0), VariantFromInteger(3), VariantFromInteger(-2), VariantFromInteger(10), VariantFromInteger(40),
 		VariantFromLong(0), VariantFromLong(5), VariantFromLong(-7), VariantFromFloat(1.5), VariantFromFloat(float32(nan)), VariantFromFloat(0),
 		VariantFromDouble(2.25), VariantFromDouble(nan), VariantFromDouble(math.Inf(1)), VariantFromDouble(0), VariantFromDouble(-3),
-		VariantFromString("a"), VariantFromString("b"), VariantFromBoolean(true), VariantFromBoolean(false),
+		VariantFromString("a"), VariantFromString("b"), VariantFromString("h\u00e9llo \u65e5\u672c"), VariantFromBoolean(true), VariantFromBoolean(false),
+		VariantFromInteger(7), VariantFromLong(9), VariantFromInteger(1),
 		VariantFromDateTime(time.Unix(100, 0)), VariantFromDateTime(time.Unix(200, 0)), VariantFromTimeSpan(time.Second), VariantFromTimeSpan(-time.Millisecond),
 		VariantFromArray([]*Variant{VariantFromInteger(1), VariantFromInteger(2)}), VariantFromArray([]*Variant{VariantFromDouble(2.25), VariantFromString("3"), VariantFromLong(5)}), VariantFromArray(nil)}
 }
@@ -856,6 +870,19 @@ func TestVerifReplay(t *testing.T) {
 					case e == nil && (r.Type() != Boolean || r.AsBoolean() != want): t.Errorf("manager %d: %v IN %v = %v, comparing the value with each element gives %v", mi, b, a, r, want)
 					}
 				}
+				// "indexing follow[s] list semantics ... index out of range yields an error": element i of an array, character i of a
+				// string (counted in characters, not bytes), an error for every other index
+				if (a.Type() == Array || a.Type() == String) && b.Type() == Integer {
+					i := b.AsInteger()
+					r, e := ops.GetElement(a, b)
+					if a.Type() == Array {
+						l := a.AsArray()
+						if i < 0 || i >= len(l) { if e == nil { t.Errorf("manager %d: %v[%d]: no error for an index out of range (result %v)", mi, a, i, r) } } else if e != nil || r != l[i] { t.Errorf("manager %d: %v[%d] = %v, %v", mi, a, i, r, e) }
+					} else {
+						rs := []rune(a.AsString())
+						if i < 0 || i >= len(rs) { if e == nil { t.Errorf("manager %d: %q[%d]: no error for an index out of range (result %v)", mi, a.AsString(), i, r) } } else if e != nil || r.Type() != String || r.AsString() != string(rs[i]) { t.Errorf("manager %d: %q[%d] = %v, %v", mi, a.AsString(), i, r, e) }
+					}
+				}
 				// comparison consistency for equal types
 				if a.Type() == b.Type() && a.Type() != Null {
 					bv := func(n string) (bool, bool) { r, ok := res[n]; if !ok || r.Type() != Boolean { return false, false }; return r.AsBoolean(), true }
@@ -871,7 +898,7 @@ func TestVerifReplay(t *testing.T) {
 	}
 }
 '''
-        return 'variants', src, 'all operators x all pairs of 28 sample values (every variant type; 0, negatives, NaN, +Inf, mixed-type arrays) x both managers'
+        return 'variants', src, 'all operators x all pairs of 32 sample values (every variant type; 0, negatives, NaN, +Inf, mixed-type arrays, a non-ASCII string with indexes between its character and byte count) x both managers'
 
     def operand(self, vals, v):
         t = vals.get(v + '_t', 1)
@@ -1052,10 +1079,21 @@ func TestVerifReplay(t *testing.T) {
 	// sequences of multi-character symbols (the cached symbol texts must not influence each other)
 	symbols := []string{"<=", "<>", "<<", ">=", ">>", "!=", "<", "="}
 	for _, a := range symbols { for _, b := range symbols { for _, c := range symbols { inputs = append(inputs, "x"+a+"y"+b+"z"+c+"w") } } }
+	// characters a reader might be tempted to treat specially at the very start or end: byte-order mark, NUL, U+FFFE/U+FFFF, a non-BMP character
+	for _, ch := range []string{"\\ufeff", "\\x00", "\\ufffe", "\\uffff", "\\U0001F600", "\\u2028"} { inputs = append(inputs, ch+"id,name", "a"+ch+"b", "ab "+ch, ch) }
 	bad := 0
 	for _, in := range inputs {
 		for name, f := range mk {
 			if !vcheck(t, name, f(), in) { bad++ }
+			if bad > 5 { t.Fatalf("stopping after %%d failing inputs", bad) }
+		}
+	}
+	// the same statement on ONE instance of each tokenizer fed all inputs in turn (unterminated literals and comments included):
+	// nothing a state keeps from one input may leak into the text of the next
+	for name, f := range mk {
+		tk := f()
+		for _, in := range inputs {
+			if !vcheck(t, name+" (reused)", tk, in) { bad++ }
 			if bad > 5 { t.Fatalf("stopping after %%d failing inputs", bad) }
 		}
 	}
@@ -1544,6 +1582,8 @@ func TestVerifReplay(t *testing.T) {
 		func() {
 			defer func() { if r := recover(); r != nil { t.Errorf("%%q: SetExpression panicked: %%v", expr, r); bad++ } }()
 			err = parser.SetExpression(expr)
+			// submitting the same text again on the same parser gets the same verdict
+			if e2 := parser.SetExpression(expr); (e2 == nil) != (err == nil) { t.Errorf("%%q: first %%v, submitted again %%v", expr, err, e2); bad++; return }
 			if accept && err != nil { t.Errorf("%%q is a sentence of the grammar but was rejected: %%v", expr, err); bad++; return }
 			if !accept && err == nil {
 				var got []string
